@@ -135,7 +135,8 @@ def small_patterns():
             mk([gs, d, gs, (L('y'),)]), mk([d, gs, (L('s'),), gs, (L('y'),)]), mk([gs, (L('s'),), gs, (L('y'), L('2'))]), mk([gs, (L('x'),)], trail=False), mk([star], trail=True), mk([a], trail=True), mk([lf], trail=True), mk([ld], trail=True),
             mk([(L('d'), L('a'), L('n'), L('g'))]), mk([gs, (L('d'), L('a'), L('n'), L('g'))]), mk([d, star], dbl=True), mk([(L('S'), L('u'), L('b')), star]),
             mk([(L('n'), L('o'), L('n'), L('e'))]), mk([a, (L('r'),), gs, (L('t'),)]), mk([gs, (L('r'),), gs, (L('t'),)]), mk([gs, (L('l'), L('r')), gs]),
-            mk([gsl, a, gs, (L('t'),)]), mk([gsl, d, gs, (L('y'),)]), mk([gsl, gs, (L('t'),)])]
+            mk([gsl, a, gs, (L('t'),)]), mk([gsl, d, gs, (L('y'),)]), mk([gsl, gs, (L('t'),)]),
+            mk([gs, gsl, (L('t'),)]), mk([gs, gsl, txt]), mk([gs, gsl, star])]          # `**/***` is one `***`
     return pats
 
 
@@ -150,7 +151,7 @@ def globmatch_vs_glob(item):
         for idx, (els, flags, excl) in enumerate(cases):
             if too_many_timeouts():
                 break          # this worker has hit the alarm repeatedly: the violations are reported, the rest is not run
-            txt = P.render(els)
+            txt = els if isinstance(els, str) else P.render(els)          # (a str is raw pattern text)
             follow = bool(flags & G.L)
             if cyclic and (follow or (flags & G.GL and '***' in txt)):
                 continue
